@@ -267,10 +267,196 @@ def gen_tables():
     return _write(os.path.join(GEN, 'Tables.lean'), '\n'.join(out))
 
 
-def regen_all():
+# ---------------------------------------------------------------------------
+# NumPy index helpers (utils.reflect, utils.symm_pad_1d) -> Lean over exact rationals
+# ---------------------------------------------------------------------------
+
+class NpTranslator:
+    """straight-line NumPy scalar code: + - *, np.fmod, np.where, comparisons, float/int constants.
+    `ints` = names holding Python ints (cast to Q where a rational is expected)."""
+
+    def __init__(self, ints=()):
+        self.ints = set(ints)
+
+    def q(self, e):
+        """expression of rational type"""
+        if isinstance(e, ast.Constant) and isinstance(e.value, (int, float)) and not isinstance(e.value, bool):
+            f = Fraction(e.value)
+            return '((%d : ℚ) / %d)' % (f.numerator, f.denominator) if f.denominator != 1 else '(%d : ℚ)' % f.numerator
+        if isinstance(e, ast.Name):
+            return '(%s : ℚ)' % e.id if e.id in self.ints else e.id
+        if isinstance(e, ast.UnaryOp) and isinstance(e.op, ast.USub):
+            return '(-%s)' % self.q(e.operand)
+        if isinstance(e, ast.BinOp):
+            op = {ast.Add: '+', ast.Sub: '-', ast.Mult: '*'}.get(type(e.op))
+            if op is None:
+                raise TranslateError('operator %s in a NumPy helper' % type(e.op).__name__)
+            return '(%s %s %s)' % (self.q(e.left), op, self.q(e.right))
+        if isinstance(e, ast.Call) and _is_np(e.func, 'fmod') and len(e.args) == 2 and not e.keywords:
+            return '(fmod %s %s)' % (self.q(e.args[0]), self.q(e.args[1]))
+        if isinstance(e, ast.Call) and _is_np(e.func, 'where') and len(e.args) == 3 and not e.keywords:
+            return '(if %s then %s else %s)' % (self.cond(e.args[0]), self.q(e.args[1]), self.q(e.args[2]))
+        raise TranslateError('NumPy helper expression %s' % ast.dump(e)[:80])
+
+    def z(self, e):
+        """expression of integer type"""
+        if isinstance(e, ast.Constant) and isinstance(e.value, int) and not isinstance(e.value, bool):
+            return '(%d : Int)' % e.value
+        if isinstance(e, ast.Name) and e.id in self.ints:
+            return e.id
+        if isinstance(e, ast.UnaryOp) and isinstance(e.op, ast.USub):
+            return '(-%s)' % self.z(e.operand)
+        if isinstance(e, ast.BinOp) and isinstance(e.op, (ast.Add, ast.Sub, ast.Mult)):
+            op = {ast.Add: '+', ast.Sub: '-', ast.Mult: '*'}[type(e.op)]
+            return '(%s %s %s)' % (self.z(e.left), op, self.z(e.right))
+        raise TranslateError('integer expression %s' % ast.dump(e)[:80])
+
+    def cond(self, e):
+        if isinstance(e, ast.Compare) and len(e.ops) == 1:
+            sym = {ast.Lt: '<', ast.LtE: '≤', ast.Gt: '>', ast.GtE: '≥'}.get(type(e.ops[0]))
+            if sym is None:
+                raise TranslateError('comparison in a NumPy helper')
+            return '(%s %s %s)' % (self.q(e.left), sym, self.q(e.comparators[0]))
+        raise TranslateError('condition %s' % ast.dump(e)[:80])
+
+
+def _is_np(f, name):
+    return isinstance(f, ast.Attribute) and f.attr == name and isinstance(f.value, ast.Name) and f.value.id == 'np'
+
+
+def _body(fn):
+    b = list(fn.body)
+    if b and isinstance(b[0], ast.Expr) and isinstance(b[0].value, ast.Constant) and isinstance(b[0].value.value, str):
+        b = b[1:]
+    return b
+
+
+def _translate_reflect(fn):
+    args = [a.arg for a in fn.args.args]
+    if len(args) != 3:
+        raise TranslateError('reflect: expected 3 parameters')
+    x = args[0]
+    t = NpTranslator()
+    lines = []
+    body = _body(fn)
+    if not body or not isinstance(body[-1], ast.Return):
+        raise TranslateError('reflect: no final return')
+    for s in body[:-1]:
+        if not (isinstance(s, ast.Assign) and len(s.targets) == 1 and isinstance(s.targets[0], ast.Name)):
+            raise TranslateError('reflect: statement %s' % type(s).__name__)
+        v = s.targets[0].id
+        if isinstance(s.value, ast.Call) and _is_np(s.value.func, 'asanyarray') and v == x and len(s.value.args) == 1 \
+                and isinstance(s.value.args[0], ast.Name) and s.value.args[0].id == x:
+            continue                                   # x = np.asanyarray(x): identity on values
+        lines.append('  let %s : ℚ := %s' % (v, t.q(s.value)))
+    r = body[-1].value
+    # return np.array(out, dtype=x.dtype): back to the integer dtype of the index vector
+    ok = (isinstance(r, ast.Call) and _is_np(r.func, 'array') and len(r.args) == 1 and len(r.keywords) == 1 and r.keywords[0].arg == 'dtype'
+          and isinstance(r.keywords[0].value, ast.Attribute) and r.keywords[0].value.attr == 'dtype'
+          and isinstance(r.keywords[0].value.value, ast.Name) and r.keywords[0].value.value.id == x)
+    if not ok:
+        raise TranslateError('reflect: return form')
+    lines.append('  asInt %s' % t.q(r.args[0]))
+    return 'def reflect (%s : ℚ) : Int :=\n%s\n' % (' '.join(args), '\n'.join(lines))
+
+
+def _reflect_call_on_arange(call, ints):
+    """reflect(np.arange(a, b, dtype='int32'), lo, hi)  ->  (a, b, lo, hi) as Lean texts"""
+    if not (isinstance(call, ast.Call) and isinstance(call.func, ast.Name) and call.func.id == 'reflect' and len(call.args) == 3 and not call.keywords):
+        raise TranslateError('expected a call reflect(np.arange(..), lo, hi)')
+    ar = call.args[0]
+    if not (isinstance(ar, ast.Call) and _is_np(ar.func, 'arange') and len(ar.args) == 2 and len(ar.keywords) == 1 and ar.keywords[0].arg == 'dtype'
+            and isinstance(ar.keywords[0].value, ast.Constant) and ar.keywords[0].value.value in ('int32', 'int64')):
+        raise TranslateError('expected np.arange(a, b, dtype=int32) as the first argument of reflect')
+    t = NpTranslator(ints)
+    return t.z(ar.args[0]), t.z(ar.args[1]), t.q(call.args[1]), t.q(call.args[2])
+
+
+def _translate_symm_pad(fn):
+    args = [a.arg for a in fn.args.args]
+    if len(args) != 2:
+        raise TranslateError('symm_pad_1d: expected 2 parameters')
+    body = _body(fn)
+    if len(body) != 2 or not isinstance(body[0], ast.Assign) or not isinstance(body[1], ast.Return):
+        raise TranslateError('symm_pad_1d: expected one assignment and a return')
+    v = body[0].targets[0]
+    if not (isinstance(v, ast.Name) and isinstance(body[1].value, ast.Name) and body[1].value.id == v.id):
+        raise TranslateError('symm_pad_1d: return form')
+    a, b, lo, hi = _reflect_call_on_arange(body[0].value, args)
+    return ('def symm_pad_1d (%s : Int) : List Int :=\n  (arange %s %s).map fun (x : Int) => reflect (x : ℚ) %s %s\n' % (' '.join(args), a, b, lo, hi))
+
+
+def _check_pad_sites():
+    """every index vector built inside mypad / the dtcwt filters must be an instance of the translated helpers:
+    the sites are compared with fixed shapes; a deviation means the translator can no longer follow the source"""
+    low = os.path.join(rt.REPO, 'pytorch_wavelets', 'dwt', 'lowlevel.py')
+    tree = ast.parse(open(low).read())
+    imported = any(isinstance(n, ast.ImportFrom) and n.module == 'pytorch_wavelets.utils' and any(a.name == 'reflect' and a.asname in (None, 'reflect') for a in n.names) for n in tree.body)
+    local = any(isinstance(n, ast.FunctionDef) and n.name == 'reflect' for n in ast.walk(tree))
+    if not imported or local:
+        raise TranslateError('dwt/lowlevel.py no longer takes reflect from pytorch_wavelets.utils')
+    mypad = _find_fn(low, 'mypad')
+    sym_sites = 0; per_sites = 0
+    for c in ast.walk(mypad):
+        if isinstance(c, ast.Call) and isinstance(c.func, ast.Name) and c.func.id == 'reflect':
+            ar = c.args[0] if c.args else None
+            names = {n.id for n in ast.walk(c) if isinstance(n, ast.Name)} - {'reflect', 'np'}
+            a, b, lo, hi = _reflect_call_on_arange(c, names)
+            # shape: reflect(arange(-m1, l+m2), -1/2, l - 1/2)
+            ok = (isinstance(ar.args[0], ast.UnaryOp) and isinstance(ar.args[0].operand, ast.Name)
+                  and isinstance(ar.args[1], ast.BinOp) and isinstance(ar.args[1].op, ast.Add) and isinstance(ar.args[1].left, ast.Name) and isinstance(ar.args[1].right, ast.Name)
+                  and isinstance(c.args[1], ast.UnaryOp) and isinstance(c.args[1].operand, ast.Constant) and c.args[1].operand.value == 0.5
+                  and isinstance(c.args[2], ast.BinOp) and isinstance(c.args[2].op, ast.Sub) and isinstance(c.args[2].left, ast.Name)
+                  and c.args[2].left.id == ar.args[1].left.id and isinstance(c.args[2].right, ast.Constant) and c.args[2].right.value == 0.5)
+            if not ok:
+                raise TranslateError('mypad: a symmetric index vector is not reflect(arange(-m1, l+m2), -0.5, l-0.5)')
+            sym_sites += 1
+        if isinstance(c, ast.Call) and _is_np(c.func, 'pad'):
+            ok = (len(c.args) == 2 and isinstance(c.args[0], ast.Name) and isinstance(c.args[1], ast.Tuple) and len(c.args[1].elts) == 2
+                  and len(c.keywords) == 1 and c.keywords[0].arg == 'mode' and isinstance(c.keywords[0].value, ast.Constant) and c.keywords[0].value.value == 'wrap')
+            if not ok:
+                raise TranslateError("mypad: a periodic index vector is not np.pad(arange(n), (a, b), mode='wrap')")
+            per_sites += 1
+    if sym_sites != 4 or per_sites != 4:
+        raise TranslateError('mypad: expected 4 symmetric and 4 periodic index-vector sites, found %d and %d' % (sym_sites, per_sites))
+    dl = os.path.join(rt.REPO, 'pytorch_wavelets', 'dtcwt', 'lowlevel.py')
+    tree = ast.parse(open(dl).read())
+    imported = any(isinstance(n, ast.ImportFrom) and n.module == 'pytorch_wavelets.utils' and any(a.name == 'symm_pad_1d' and a.asname == 'symm_pad' for a in n.names) for n in tree.body)
+    local = any(isinstance(n, (ast.FunctionDef, ast.Assign)) and (getattr(n, 'name', None) == 'symm_pad' or any(isinstance(t, ast.Name) and t.id == 'symm_pad' for t in getattr(n, 'targets', []))) for n in ast.walk(tree))
+    if not imported or local:
+        raise TranslateError('dtcwt/lowlevel.py no longer takes symm_pad from pytorch_wavelets.utils.symm_pad_1d')
+    n_sites = sum(1 for c in ast.walk(tree) if isinstance(c, ast.Call) and isinstance(c.func, ast.Name) and c.func.id == 'symm_pad')
+    return sym_sites, per_sites, n_sites
+
+
+def gen_pad():
+    path = os.path.join(rt.REPO, 'pytorch_wavelets', 'utils.py')
+    out = ['/- GENERATED on every run by harness/translate.py from pytorch_wavelets/utils.py (reflect, symm_pad_1d)',
+           '   — do not edit.  NumPy scalar semantics: WaveletsVerif/Model/NumpyQ.lean. -/',
+           'import WaveletsVerif.Model.NumpyQ', 'namespace WV.Gen', 'open WV.NumpyQ', '']
+    out.append(_translate_reflect(_find_fn(path, 'reflect')))
+    out.append(_translate_symm_pad(_find_fn(path, 'symm_pad_1d')))
+    s, p_, n = _check_pad_sites()
+    out.append('/-- index-vector sites found in the source and checked to be instances of the helpers above -/')
+    out.append('def pad_sites : Nat × Nat × Nat := (%d, %d, %d)   -- mypad symmetric, mypad periodic (np.pad wrap), dtcwt symm_pad' % (s, p_, n))
+    out.append('\nend WV.Gen\n')
+    return _write(os.path.join(GEN, 'Pad.lean'), '\n'.join(out))
+
+
+PAD_PROPS = {'C01', 'C03', 'C04', 'C11'}      # the properties whose theorem lists include the padding-helper tie (C03T)
+
+
+def regen_all(prop=None):
     gen_dims()
     gen_modes()
     gen_tables()
+    try:
+        gen_pad()
+    except TranslateError:
+        # a helper the translator cannot follow is a broken obligation of the properties that rest on the tie theorems;
+        # the others keep the last generated file (they do not import it)
+        if prop is None or prop in PAD_PROPS:
+            raise
 
 
 if __name__ == '__main__':
